@@ -261,8 +261,99 @@ def r10_2(chk, tier):
                     else:
                         chk.ok('R10.2', psite, {'function': fn['q'], 'push_line': c.get('l'), 'guard': gi.why})
 
+def r10_3(chk, tier):
+    chk.rule('R10.3', 'every push of a container frame on a decoder state stack (state_stack_.emplace_back(parse_mode::X, ...), X != root) is '
+                      'dominated - locally or at every call site - by an exact nesting-limit comparison', floor=20)
+    n = 0
+    for unit, sel, floor in DECODERS[1:5]:
+        facts = F.load([unit], tier)
+        fns = [f for f in facts.functions if not f.get('dep') and f.get('body')]
+        inter = Inter(facts, fns)
+        for fn in U.one_per_inst([f for f in fns if in_scope(f, sel)]):
+            if fn.get('fk') in ('CXXConstructor',) or fn['n'] in ('reset', 'restart', 'reinitialize'): continue
+            pushes = []
+            for c in A.calls_in(fn['body']):
+                if A.is_call(c) and A.callee_name(c) in ('emplace_back', 'push_back') and A.ref_name(c.get('obj')) == 'state_stack_':
+                    a0 = (c.get('args') or [None])[0]
+                    mode = U.enum_const_name(a0)
+                    if mode is None or mode == 'root': continue
+                    pushes.append((c, mode))
+            if not pushes: continue
+            chk.analysed(fn)
+            for i, (c, mode) in enumerate(pushes):
+                n += 1
+                ok, why, chain = guarded(inter, fn, c, 3, frozenset())
+                site = U.site(fn, 'push#%d=%s' % (i + 1, mode))
+                facts_ = {'function': fn['q'], 'push': A.text(c)[:100], 'line': c.get('l'), 'verdict': why}
+                if ok is None: continue
+                if ok: chk.ok('R10.3', site, facts_ if i == 0 else None)
+                else: chk.fail('R10.3', site, fn['file'], c.get('l'), 'frame parse_mode::%s pushed in %s: %s' % (mode, U.site(fn, '').strip(), why), facts_, fn['q'])
+    chk.require(n >= 20, 'R10.3: only %d container-frame pushes found' % n)
+
+TAINT_SCOPE = [
+    # unit, file suffixes, parameter names that carry a length requested on behalf of the input
+    ('core', ('jsoncons/source.hpp',), ('length',)),
+    ('cbor', ('cbor_parser.hpp', 'cbor_typed_array_iterator.hpp'), ()),
+    ('msgpack', ('msgpack_parser.hpp',), ()),
+    ('ubjson', ('ubjson_parser.hpp',), ()),
+    ('bson', ('bson_parser.hpp',), ()),
+    ('reflect', ('reflect/decode_traits.hpp',), ()),
+    ('core', ('jsoncons/json_decoder.hpp', 'jsoncons/staj_cursor.hpp', 'jsoncons/staj_event.hpp'), ()),
+]
+
+def r10_4(chk, tier):
+    from .. import taint as T
+    chk.rule('R10.4', 'no allocation-sizing call (reserve, resize, sized vector/string construction) in the decoders, the source readers, '
+                      'json_decoder or decode_traits takes a size that derives from a length declared by the input without a cap '
+                      '(min with a bounded operand such as chunk_size() or a constant)', floor=6)
+    n = 0
+    for unit, files, tparams in TAINT_SCOPE:
+        facts = F.load([unit], tier)
+        if unit not in chk.units: chk.units.append(unit)
+        fns = [f for f in facts.functions if f.get('body') is not None and f['file'].endswith(files)]
+        inst = set((f['file'], f['l']) for f in fns if not f.get('dep'))
+        seen = set()
+        work = []
+        for fn in fns:
+            if fn.get('dep') and (fn['file'], fn['l']) in inst: continue
+            work.append((fn, tuple(tparams)))
+        done = set()
+        while work:
+            fn, tp = work.pop()
+            key = (fn['file'], fn['l'], fn['q'], tp)
+            if key in done: continue
+            done.add(key)
+            tainted, sinks, passed = T.analyse(fn, tp)
+            has_sink_calls = any(x.get('k') == 'CXXMemberCallExpr' and A.callee_name(x) in T.SINKS for x in A.walk_no_lambda(fn['body']))
+            if has_sink_calls or sinks:
+                chk.analysed(fn)
+                skey = (fn['file'], fn['l'], tp)
+                if skey not in seen:
+                    seen.add(skey)
+                    n += 1
+                    site = U.site(fn, 'sizing calls' + ('(%s)' % ','.join(tp) if tp else ''))
+                    if sinks:
+                        c, a = sinks[0]
+                        chk.fail('R10.4', site, fn['file'], c.get('l'), '`%s` in %s is sized by `%s`, which derives from a length declared by the input, without a cap' % (
+                            A.text(c)[:60], fn['n'], A.text(a)[:40]), {'function': fn['q'], 'tainted_params': list(tp)}, fn['q'])
+                    else:
+                        chk.ok('R10.4', site, {'function': fn['q'], 'verdict': 'every sizing call is constant, capped or sized by data already present'})
+            # one level of parameter passing inside the unit
+            for call, idx in passed:
+                callee = facts.callee(fn, call)
+                if callee is None or callee.get('body') is None: continue
+                args = call.get('args') or []
+                off = 1 if (call.get('k') == 'CXXOperatorCallExpr' and callee.get('fk') == 'CXXMethod') else 0
+                pi = idx - off
+                if 0 <= pi < len(callee['params']) and len(tp) < 3:
+                    pname = callee['params'][pi]['n']
+                    if pname: work.append((callee, (pname,)))
+    chk.require(n >= 6, 'R10.4: only %d functions with sizing calls analysed' % n)
+
 def run(chk, tier, only_rule=None):
     chk.explanation = EXPLANATION
     chk.not_decided = NOT_DECIDED
     r10_1(chk, tier)
     r10_2(chk, tier)
+    r10_3(chk, tier)
+    r10_4(chk, tier)
